@@ -19,7 +19,11 @@ RULE = (
   "polynomial damping, armature, gravcomp, fluid, tendons, actuators with integrator/filter/filterexact/muscle/dcmotor "
   "dynamics, actearly, act limits); 'soft' = same plus joint/tendon limits, equalities and frictionloss (Newton, no "
   "contacts); 'contact' = spheres/capsules/boxes-free scene resting on a plane; 'repo' = repository model; 'cap0' = "
-  "constraint-free model stepped with njmax=0 vs njmax=64 (capacity must not matter). 3 worlds with "
+  "constraint-free model stepped with njmax=0 vs njmax=64 (capacity must not matter); 'flags' = free / soft / contact "
+  "workload with directed combinations of disable flags (damper, damper+eulerdamp, spring, spring+damper, actuation, "
+  "actuation+damper, actuation+spring+damper, gravity, clampctrl, frictionloss, limit, equality, constraint, warmstart, "
+  "refsafe, contact) x every integrator, thorough tier adds random further disable / enable flags; a flag counts as "
+  "exercised only in a judged world where MuJoCo's own step changes when that flag is cleared. 3 worlds with "
   "different random states (|omega| up to 30 rad/s on ball/free joints, unnormalised quaternions, random warmstart), 1 or 3 "
   "lock-steps. Non-trivial: nv>=2 and at least one world judged on qvel; distinct by hash(xml, integrator, flags, states)."
 )
@@ -78,6 +82,38 @@ P_SOFT = gen.profile(
   p_actfrcrange=0.3,
 )
 
+# Disable / enable flag family ('flags' kind): every integrator is run under directed combinations of option flags that
+# change what the integrators (and the forward pass feeding them) compute.  (flag names, base workload)
+FLAG_COMBOS = [
+  (("damper",), "free"),  # Euler must skip implicit damping; implicit(fast) must drop damping from qDeriv
+  (("damper", "eulerdamp"), "free"),
+  (("spring",), "free"),
+  (("spring", "damper"), "free"),  # all passive forces off (gravcomp, fluid too)
+  (("actuation",), "free"),
+  (("actuation", "damper"), "free"),
+  (("actuation", "spring", "damper"), "free"),  # implicitfast: nothing left to differentiate
+  (("gravity",), "free"),
+  (("clampctrl",), "free"),
+  (("damper",), "soft"),
+  (("frictionloss",), "soft"),
+  (("limit",), "soft"),
+  (("equality",), "soft"),
+  (("constraint",), "soft"),
+  (("warmstart",), "soft"),
+  (("refsafe",), "soft"),
+  (("contact",), "contact"),
+  (("warmstart",), "contact"),
+]
+FLAG_POOL = ("damper", "spring", "eulerdamp", "gravity", "actuation", "clampctrl", "frictionloss", "limit", "equality", "contact", "warmstart", "refsafe", "filterparent", "sensor")
+ENABLE_POOL = ("energy", "invdiscrete")
+# flags whose effect on the next state must have been observed (MuJoCo's own step changes when the flag is cleared)
+FLAGS_REQUIRED = ("damper", "spring", "actuation", "gravity", "clampctrl", "frictionloss", "limit", "equality", "contact")
+
+
+def flag_bits(names):
+  return sum(int(getattr(mujoco.mjtDisableBit, "mjDSBL_" + n.upper())) for n in names)
+
+
 REPO_MODELS = [
   "pendula.xml",
   "actuation/actuators.xml",
@@ -130,6 +166,12 @@ def cases(tier, seed):
   for i in range(8 if tier == "quick" else 80):
     integ = INTEGRATORS[i % 4]
     out.append({"id": f"cap0_{seed}_{i}", "kind": "cap0", "seed": seed * 100000 + 80000 + i, "integrator": integ, "eulerdamp": 0, "poly": 0, "nsteps": 1, "weight": 1})
+  nfl = len(FLAG_COMBOS) * 4
+  for i in range(nfl if tier == "quick" else 10 * nfl):
+    integ = INTEGRATORS[i % 4]
+    names, base = FLAG_COMBOS[(i // 4) % len(FLAG_COMBOS)]
+    # round 0 (the whole quick tier): the directed combination alone; later rounds add random further flags
+    out.append({"id": f"flags{seed}_{i}", "kind": "flags", "base": base, "seed": seed * 100000 + 90000 + i, "integrator": integ, "eulerdamp": 0, "poly": 0, "flags": list(names), "extra_flags": int(i >= nfl), "nsteps": 2 if (i // 4) % 3 == 0 else 1, "weight": 2})
   for k, p in enumerate(REPO_MODELS):
     for r in range(1 if tier == "quick" else 8):
       integ = INTEGRATORS[(k + r) % 4]
@@ -140,7 +182,7 @@ def cases(tier, seed):
 def build_model(case, rng):
   import os
 
-  kind = case["kind"]
+  kind = case.get("base", case["kind"])  # 'flags' cases are built on the free / soft / contact workloads
   if kind in ("free", "soft", "cap0"):
     xml, mjm, feat, s = gen.make_model(case["seed"], P_SOFT if kind == "soft" else P_FREE, accept=_step.well_conditioned)
     if mjm is None:
@@ -164,6 +206,17 @@ def build_model(case, rng):
   if case["eulerdamp"]:
     mjm.opt.disableflags |= int(mujoco.mjtDisableBit.mjDSBL_EULERDAMP)
     feat = list(feat) + ["disable:eulerdamp"]
+  if case.get("flags"):
+    names = list(case["flags"])
+    enable = []
+    if case.get("extra_flags"):
+      rf = np.random.default_rng([int(case["seed"]) & 0xFFFFFFFF, 0xF1A6])  # own stream: states stay as in round 0
+      names += [n for n in FLAG_POOL if n not in names and rf.random() < 0.12]
+      enable = [n for n in ENABLE_POOL if rf.random() < 0.3]
+    mjm.opt.disableflags |= flag_bits(names)
+    for n in enable:
+      mjm.opt.enableflags |= int(getattr(mujoco.mjtEnableBit, "mjENBL_" + n.upper()))
+    feat = list(feat) + ["disable:" + n for n in names] + ["enable:" + n for n in enable]
   if case["poly"] and hasattr(mjm, "dof_dampingpoly") and mjm.nv:
     # one value per joint (what the MJCF compiler produces: all dofs of a ball/free joint share the joint's damping)
     poly = rng.uniform(0, 0.3, size=(mjm.njnt, 2)) * (rng.random(size=(mjm.njnt, 1)) < 0.5)
@@ -256,6 +309,38 @@ def capacity_zero(rec, case, xml, mjm, m, states):
   return rec.result()
 
 
+def flag_effect_probe(mjm, names, integ):
+  """Per judged world: which of the disabled flags actually mattered?  MuJoCo's own step from the same state with that one
+  flag cleared again gives a different next qvel / act (so a flag test that MJWarp drops or widens is observable in this
+  world).  Decided from MuJoCo outputs only; feeds the coverage counters that requirements() demands."""
+  import copy
+
+  alts = {}
+  for n in names:
+    a = copy.copy(mjm)
+    a.opt.disableflags &= ~flag_bits([n])
+    alts[n] = a
+  has_damping = bool(mjm.nv and (np.any(mjm.dof_damping > 0) or (hasattr(mjm, "dof_dampingpoly") and np.any(mjm.dof_dampingpoly != 0))))
+
+  def extra(rec, got, w, st, ref, noise, verdict):
+    if verdict == "ungated":
+      return
+    rec.cover("flags:worlds_judged", 1)
+    scale = max(1.0, float(np.abs(ref["qvel"]).max(initial=0)))
+    for n, a in alts.items():
+      d = mujoco.MjData(a)
+      mw.apply_state_mj(a, d, st)
+      mujoco.mj_step(a, d)
+      diff = max(float(np.abs(d.qvel - ref["qvel"]).max(initial=0)), float(np.abs(d.act - ref["act"]).max(initial=0)))
+      if np.isfinite(diff) and diff > 1e-4 * scale:
+        rec.cover("flag_effective:" + n, 1)
+        rec.cover(f"flag_effective:{n}:{integ}", 1)
+        if n == "damper" and integ == "Euler" and "eulerdamp" not in names and has_damping:
+          rec.cover("euler:damper_off_eulerdamp_on_with_damping", 1)
+
+  return extra
+
+
 def run_case(case):
   rec = core.Rec(case)
   rng = np.random.default_rng(case["seed"])
@@ -269,11 +354,12 @@ def run_case(case):
     rec.rejected = f"put_model: {e}"[:200]
     rec.count("rejected_put_model")
     return rec.result()
-  states = sample_states(mjm, rng, case["kind"])
+  states = sample_states(mjm, rng, case.get("base", case["kind"]))
   integ = case["integrator"]
   if case["kind"] == "cap0":
     return capacity_zero(rec, case, xml, mjm, m, states)
-  res = _step.step_compare(rec, mjm, m, states, nsteps=case["nsteps"], seed=case["seed"], prefix=integ + ":")
+  extra = flag_effect_probe(mjm, [f[8:] for f in feat if f.startswith("disable:")], integ) if case["kind"] == "flags" else None
+  res = _step.step_compare(rec, mjm, m, states, nsteps=case["nsteps"], seed=case["seed"], prefix=integ + ":", extra=extra)
   judged = res["gated"] + res["free"]
   rec.cover("integrator:" + integ, judged)
   rec.cover("kind:" + case["kind"], judged)
@@ -300,8 +386,8 @@ def run_case(case):
       if ref0[4]:
         rec.cover("rows:contact", 1)
   if mjm.nv >= 2 and judged:
-    rec.nontrivial(xml, integ, case["eulerdamp"], case["poly"], *[s["qpos"] for s in states], *[s["qvel"] for s in states])
-  rec.sample = {"kind": case["kind"], "model": case.get("path", f"seed {case['seed']}"), "integrator": integ, "nv": mjm.nv, "na": mjm.na, "nu": mjm.nu, "timestep": float(mjm.opt.timestep), "eulerdamp_disabled": bool(case["eulerdamp"]), "nsteps": case["nsteps"], "judged_worlds": judged, "ungated_worlds": res["ungated"], "qvel_world2": states[2]["qvel"][:6]}
+    rec.nontrivial(xml, integ, case["eulerdamp"], case["poly"], *[f for f in feat if f.startswith(("disable:", "enable:")) and case["kind"] == "flags"], *[s["qpos"] for s in states], *[s["qvel"] for s in states])
+  rec.sample = {"kind": case["kind"], "flags": [f for f in feat if f.startswith(("disable:", "enable:"))], "model": case.get("path", f"seed {case['seed']}"), "integrator": integ, "nv": mjm.nv, "na": mjm.na, "nu": mjm.nu, "timestep": float(mjm.opt.timestep), "eulerdamp_disabled": bool(case["eulerdamp"]), "nsteps": case["nsteps"], "judged_worlds": judged, "ungated_worlds": res["ungated"], "qvel_world2": states[2]["qvel"][:6]}
   return rec.result()
 
 
@@ -324,6 +410,15 @@ def requirements(agg, tier):
   for f in ("joint:free", "joint:ball", "joint:hinge", "joint:slide", "damping", "dampingpoly", "dyn:integrator", "dyn:filter", "dyn:filterexact", "actearly", "actlimited"):
     if f not in feats:
       unmet.append(f"feature never judged: {f}")
+  # disable-flag family: the flag must have mattered (MuJoCo's own step changes when it is cleared) in a judged world
+  for n in FLAGS_REQUIRED:
+    if not cov.get("flag_effective:" + n):
+      unmet.append(f"disable flag {n}: no judged world in which the flag changes the step")
+  for integ in INTEGRATORS:
+    if not cov.get(f"flag_effective:damper:{integ}"):
+      unmet.append(f"disable flag damper never effective in a judged {integ} world")
+  if not cov.get("euler:damper_off_eulerdamp_on_with_damping"):
+    unmet.append("never observed: Euler with DAMPER disabled, EULERDAMP not disabled, on a damped model")
   tot = cov.get("worlds_judged_constraint_free", 0) + cov.get("worlds_judged_gated_constrained", 0) + cov.get("worlds_ungated", 0)
   if tot and cov.get("worlds_ungated", 0) > 0.5 * tot:
     unmet.append("more than half of the worlds ungated")
